@@ -322,6 +322,13 @@ def run_write(case):
                 elif kind == "dicts":
                     recs = sub.to_dict(orient="records")
                     w.append_data(recs[0] if (k == 1 and (a + case["tseed"]) % 2) else recs)
+                elif (a + case["tseed"]) % 3 == 0 and k > 0:
+                    # records built block by block from Python tuples: numpy infers a fixed-width string type per block
+                    # (the widest string of THAT block), so successive records carry different dtypes
+                    blk = np.rec.fromrecords([tuple(x.item() if hasattr(x, "item") else x for x in row)
+                                              for row in sub.itertuples(index=False)], names=list(sub.columns))
+                    for r in blk:
+                        w.append_data(r)
                 else:
                     for r in sub.to_records(index=False):      # one np.record per call (API type)
                         w.append_data(r)
